@@ -1214,7 +1214,20 @@ fn pre_wire(lim: &str, payload: &[u8]) -> Vec<u8> {
 /// The ops after the constructor of a prefilled case: feeds (for a decoder: a valid wire image cut in
 /// pieces), drains, `finish`, then the caller fills what it left pending, drains.
 fn pre_tail(ops: &mut Vec<String>, decoder: bool, lim: &str, payload: &[u8], cuts: &[usize], methods: &[&str], drains: &[&str], pending: &[(usize, usize)]) {
-    let data = if decoder { pre_wire(lim, payload) } else { payload.to_vec() };
+    pre_tail_x(ops, decoder, lim, payload, cuts, methods, drains, pending, None)
+}
+
+/// `damage`: (position, xor mask) applied to the wire image of a decoder case (the error paths: the
+/// decoder is consumed by the error, the iovec - and with it the caller's pending placeholders - is gone).
+#[allow(clippy::too_many_arguments)]
+fn pre_tail_x(ops: &mut Vec<String>, decoder: bool, lim: &str, payload: &[u8], cuts: &[usize], methods: &[&str], drains: &[&str], pending: &[(usize, usize)], damage: Option<(usize, u8)>) {
+    let mut data = if decoder { pre_wire(lim, payload) } else { payload.to_vec() };
+    if let (true, Some((pos, mask))) = (decoder, damage) {
+        if !data.is_empty() {
+            let k = pos % data.len();
+            data[k] ^= mask;
+        }
+    }
     let mut pos = 0usize;
     let mut k = 0usize;
     let mut cuts: Vec<usize> = cuts.iter().map(|c| (*c).min(data.len())).collect();
@@ -1341,7 +1354,8 @@ fn gen_prefill_case(rng: &mut Rng) -> Vec<String> {
         let j = rng.below((i + 1) as u64) as usize;
         order.swap(i, j);
     }
-    pre_tail(&mut ops, decoder, &lim, &payload, &cuts, &methods, &drains, &order);
+    let damage = if decoder && rng.chance(1, 4) { Some((rng.next() as usize, *rng.pick(&[0x01u8, 0x80, 0xFF, 0xFD]))) } else { None };
+    pre_tail_x(&mut ops, decoder, &lim, &payload, &cuts, &methods, &drains, &order, damage);
     ops
 }
 // <<< track apileft-prefill
